@@ -40,6 +40,13 @@ def handlers : List (String × Handler) := [
     | _ => "bad-op"),
   ("c20.rodrigues", fun a => match a with
     | [n, c, s, o] => showRats (m3l (Mat3.rodrigues (vecOf (rats n)) (parseRat c) (parseRat s) (parseRat o))) | _ => "bad-op"),
+  ("c20.mat4mul", fun a => match a with
+    | [x, y] => let l := rats x
+                let r := rats y
+                let m : Mat4 Rat := fun i => g l i.val
+                let n : Mat4 Rat := fun i => g r i.val
+                showRats ((List.finRange 16).map (Mat4.mul m n))
+    | _ => "bad-op"),
   ("c20.mat4inv", fun a => match a with
     | [x] => let l := rats x
              let m : Mat4 Rat := fun i => g l i.val
